@@ -55,7 +55,8 @@ theorem parseNumber_num (x : Num) (hx : x.OK) (rest : List Char)
       obtain ⟨he, hs, hdne, hds⟩ := hex
       obtain ⟨f, hf'⟩ := numExp_some e sg ds rest he (by intro c hc; subst hc; exact hs) hdne hds hstopR
       refine ⟨f, fun b => ?_⟩
-      simpa [hT2, Num.expText, List.append_assoc] using hf' b
+      have hb := hf' b
+      cases sg <;> simpa [sgText, hT2, Num.expText, List.append_assoc] using hb
   obtain ⟨bE, hE⟩ := hE
   -- the decimal part and what follows it
   obtain ⟨T1, hT1⟩ : ∃ T1, T1 = (Num.fracText ⟨ip, frac, exp⟩) ++ T2 := ⟨_, rfl⟩
